@@ -310,6 +310,83 @@ func init() {
 			return tuple{len(bs), iface{}}
 		},
 
+		// ---- bytes.Buffer: exact model of the methods csvq uses, able to hold number tokens ---------
+		"(*bytes.Buffer).WriteString": func(fr *frame, a []value) value {
+			c := structField(a[0], 0)
+			buf, _ := (*c).([]value)
+			el := strElems(a[1])
+			logCell(c)
+			*c = append(buf[:len(buf):len(buf)], el...)
+			return tuple{len(el), iface{}}
+		},
+		"(*bytes.Buffer).Write": func(fr *frame, a []value) value {
+			c := structField(a[0], 0)
+			buf, _ := (*c).([]value)
+			el := a[1].([]value)
+			logCell(c)
+			*c = append(buf[:len(buf):len(buf)], el...)
+			return tuple{len(el), iface{}}
+		},
+		"(*bytes.Buffer).WriteByte": func(fr *frame, a []value) value {
+			c := structField(a[0], 0)
+			buf, _ := (*c).([]value)
+			logCell(c)
+			*c = append(buf[:len(buf):len(buf)], a[1])
+			return iface{}
+		},
+		"(*bytes.Buffer).WriteRune": func(fr *frame, a []value) value {
+			c := structField(a[0], 0)
+			buf, _ := (*c).([]value)
+			bs := runeToBytesAny(a[1])
+			logCell(c)
+			*c = append(buf[:len(buf):len(buf)], bs...)
+			return tuple{len(bs), iface{}}
+		},
+		"(*bytes.Buffer).String": func(fr *frame, a []value) value {
+			p := a[0].(*value)
+			if p == nil {
+				return "<nil>"
+			}
+			st := (*p).(structure)
+			buf, _ := st[0].([]value)
+			off := int(asInt64(st[1]))
+			return mkStr(buf[off:])
+		},
+		"(*bytes.Buffer).Bytes": func(fr *frame, a []value) value {
+			st := (*a[0].(*value)).(structure)
+			buf, _ := st[0].([]value)
+			off := int(asInt64(st[1]))
+			return buf[off:]
+		},
+		"(*bytes.Buffer).Len": func(fr *frame, a []value) value {
+			st := (*a[0].(*value)).(structure)
+			buf, _ := st[0].([]value)
+			off := int(asInt64(st[1]))
+			if hasTokens(buf[off:]) {
+				return len(strBytes(mkStr(buf[off:])))
+			}
+			return len(buf) - off
+		},
+		"(*bytes.Buffer).Reset": func(fr *frame, a []value) value {
+			c := structField(a[0], 0)
+			buf, _ := (*c).([]value)
+			logCell(c)
+			*c = buf[:0]
+			o := structField(a[0], 1)
+			logCell(o)
+			*o = 0
+			lr := structField(a[0], 2)
+			logCell(lr)
+			*lr = int8(0)
+			return nil
+		},
+		"(*bytes.Buffer).Grow": func(fr *frame, a []value) value {
+			if asInt64(a[1]) < 0 {
+				panic(targetPanic{iface{t: types.Typ[types.String], v: "bytes.Buffer.Grow: negative count"}})
+			}
+			return nil
+		},
+
 		// ---- fmt: formatting is never the subject -----------------------------------------
 		"fmt.Sprintf": func(fr *frame, a []value) value { return nativeSprintf(a[0], a[1].([]value)) },
 		"fmt.Sprint":  func(fr *frame, a []value) value { return nativeSprint(a[0].([]value)) },
@@ -850,6 +927,20 @@ func init() {
 		externals[k] = v
 	}
 	installAtomics()
+	externals["runtime.Callers"] = func(fr *frame, a []value) value { return 0 }
+	externals["runtime.Caller"] = func(fr *frame, a []value) value { return tuple{uintptr(0), "", 0, false} }
+	externals["runtime/debug.Stack"] = func(fr *frame, a []value) value { return []value(nil) }
+	externals["runtime.Stack"] = func(fr *frame, a []value) value { return 0 }
+	// csvq turns a recovered panic into a FatalError value: that is an internal failure (C19)
+	// whichever harness it happens in.  Record it, then let the real constructor run.
+	externals["github.com/mithrandie/csvq/lib/query.NewFatalError"] = func(fr *frame, a []value) value {
+		msg := "recovered panic"
+		if x, ok := a[0].(iface); ok && x.t != nil {
+			msg = truncate(toString(x.v), 160)
+		}
+		eng.fatalSeen = append(eng.fatalSeen, msg)
+		return useSSA{}
+	}
 	externals["internal/reflectlite.TypeOf"] = ext۰reflect۰TypeOf
 	externals["(reflect.rtype).Comparable"] = func(fr *frame, a []value) value {
 		return types.Comparable(a[0].(rtype).t)
@@ -1178,4 +1269,13 @@ func installAtomics() {
 		sched.yield(nil)
 		return nil
 	}
+}
+
+
+// runeToBytesAny encodes a rune as UTF-8: concrete runes exactly, symbolic ones as ASCII.
+func runeToBytesAny(r value) []value {
+	if c, ok := r.(int32); ok {
+		return strBytes(string(c))
+	}
+	return runeToBytes(r)
 }
